@@ -19,7 +19,7 @@ pub fn materialize(spec: &str) -> Option<Vec<u8>> {
     if let Some(rest) = spec.strip_prefix("census:alone:") {
         return op_alone_module(rest.parse().ok()?);
     }
-    if spec.starts_with("leb:") {
+    if spec.starts_with("leb:") || spec.starts_with("lebi:") {
         return materialize_leb(spec);
     }
     if spec.starts_with("dwarf:") {
@@ -97,10 +97,52 @@ pub fn leb_specs(thorough: bool) -> Vec<String> {
             v.push(format!("leb:{}:128:1", n));
         }
     }
+    v.extend(lebi_specs());
     v
 }
 
+/// `lebi:<imports>:<locals>`: like the LEB census, with imported functions in front, so that the count of
+/// local functions and the count of all functions can sit on opposite sides of a LEB-length boundary.
+pub fn lebi_module(imports: usize, locals: usize) -> Vec<u8> {
+    let b = leb_module(locals, 60, 1);
+    // re-build through MSpec: decode is not available here, so construct directly
+    let mut m = MSpec::default();
+    m.types.push((vec![], vec![VT::I32]));
+    m.types.push((vec![VT::I32], vec![VT::I32]));
+    let _ = b;
+    for k in 0..imports {
+        m.imports.push(Import { module: "env".into(), field: format!("i{}", k), kind: ImportKind::Func(k as u32 % 2) });
+    }
+    for k in 0..locals {
+        let mut c = Code::new();
+        c.i64_const(0x5157_1000_0000 + k as i64).drop_();
+        for i in 0..((k * 5) % 17) {
+            c.i32_const(i as i32).drop_();
+        }
+        if imports > 0 && k % 3 == 0 {
+            // call an import of type ()->i32
+            c.call(((k % imports) / 2 * 2) as u32).drop_();
+        }
+        c.i32_const(k as i32);
+        m.funcs.push(FuncSpec { ty: 0, locals: vec![], code: c.end() });
+        if k % 2 == 0 || locals <= 2 {
+            m.exports.push(Export { name: format!("f{}", k), kind: ExportKind::Func, index: (imports + k) as u32 });
+        }
+    }
+    m.encode()
+}
+
+pub fn lebi_specs() -> Vec<String> {
+    [(127usize, 1usize), (1, 127), (126, 2), (128, 1), (100, 28), (100, 29), (27, 100), (200, 3)].iter().map(|(i, l)| format!("lebi:{}:{}", i, l)).collect()
+}
+
 pub fn materialize_leb(spec: &str) -> Option<Vec<u8>> {
+    if let Some(rest) = spec.strip_prefix("lebi:") {
+        let mut it = rest.splitn(2, ':');
+        let i: usize = it.next()?.parse().ok()?;
+        let l: usize = it.next()?.parse().ok()?;
+        return Some(lebi_module(i, l));
+    }
     let rest = spec.strip_prefix("leb:")?;
     let mut it = rest.splitn(3, ':');
     let n: usize = it.next()?.parse().ok()?;
@@ -115,10 +157,15 @@ pub const HIST_COLLECTIONS: [&str; 11] = ["types", "exports", "imports", "global
 /// delete second issued, delete last issued}; every shorter history is a prefix of one of them and
 /// is observed step by step.
 pub fn hist_exhaustive(len: usize) -> Vec<String> {
-    const ALPHA: [char; 5] = ['a', 'b', '0', '1', 'L'];
+    const ALPHA5: [char; 5] = ['a', 'b', '0', '1', 'L'];
+    // types are de-duplicated by value: renaming through get_mut joins the alphabet there
+    const ALPHA6: [char; 6] = ['a', 'b', '0', '1', 'L', 'r'];
     let mut out = Vec::new();
-    let total = ALPHA.len().pow(len as u32);
     for coll in HIST_COLLECTIONS {
+        let alpha: &[char] = if coll == "types" { &ALPHA6 } else { &ALPHA5 };
+        #[allow(non_snake_case)]
+        let ALPHA = alpha;
+        let total = ALPHA.len().pow(len as u32);
         for mut n in 0..total {
             let mut s = String::with_capacity(len);
             for _ in 0..len {
@@ -132,7 +179,7 @@ pub fn hist_exhaustive(len: usize) -> Vec<String> {
 }
 
 pub fn hist_random(seed: u64, n: usize, len: usize) -> Vec<String> {
-    const ALPHA: &[u8] = b"abcdefgh0123456789LLaabbcc";
+    const ALPHA: &[u8] = b"abcdefgh0123456789LLaabbccrR";
     let mut out = Vec::new();
     let mut rng = crate::rng::Rng::derive(seed, &[0xC17]);
     for coll in HIST_COLLECTIONS {
